@@ -191,11 +191,11 @@ class Interp(object):
                 r = self.call_method(v, '__len__', [])
                 return self.truth_term(r) if isinstance(r, Sym) else bool(r)
             return True
-        if isinstance(v, (SVal, SKey)):
+        if isinstance(v, Sym) or type(v).__name__ in ('MatchObj', 'Poison', 'Conv', 'ParsedDT', 'HashKey'):
             h = self.world.hooks.get('truth')
             if h is not None:
                 return h(self, v)
-            raise OutOfSubset('truthiness of opaque value')
+            raise OutOfSubset('truthiness of %r' % (v,))
         if isinstance(v, (Closure, BoundMethod, Builtin, AbstractCallable, ClassRef)):
             return True
         return bool(v)
@@ -247,6 +247,9 @@ class Interp(object):
     # ------------------------------------------------------------------ calls
     def call(self, fn, args, kwargs=None):
         kwargs = kwargs or {}
+        for a in list(args) + list(kwargs.values()):
+            if type(a).__name__ == 'Poison':
+                raise a.exc
         if isinstance(fn, Builtin):
             return fn.fn(self, args, kwargs)
         if isinstance(fn, AbstractCallable):
